@@ -45,6 +45,13 @@ def gen_cases(tier, seed):
             for j in range(1, N):
                 for what in (["fd"] if not md_missing else ["md", "fd_before_md"]):
                     cases.append({"t": "nak", "N": N, "Na": 2, "ivl": ivl, "imm": imm, "md_missing": md_missing, "progress": [j, what]})
+            # NAK sequences of several PDUs, incl. request counts which fill the last NAK PDU exactly (max_packet_len 30: one request per
+            # NAK PDU, 36: two, 44: three)
+            if ivl == 1.0:
+                for maxpkt, gaps in itertools.product((30, 36, 44), (1, 2, 3)):
+                    cases.append({"t": "nak", "N": N, "Na": 2, "ivl": ivl, "imm": imm, "md_missing": md_missing, "progress": None, "maxpkt": maxpkt, "gaps": gaps})
+                    if N > 1 and not md_missing:
+                        cases.append({"t": "nak", "N": N, "Na": 2, "ivl": ivl, "imm": imm, "md_missing": md_missing, "progress": [1, "fd"], "maxpkt": maxpkt, "gaps": gaps})
     # silence cut points of the loopback
     for N in ([1, 2] if tier == "quick" else [1, 2, 3]):
         for imm in (True, False):
@@ -221,7 +228,8 @@ def run_nak(case):
     N, Na, ivl_ms = case["N"], case["Na"], int(case["ivl"] * 1000)
     ack_ivl_ms = ivl_ms * 3 + 7
     cfg = {"mode": "ack", "size": 16, "seg": 4, "nak_limit": N, "nak_ivl": case["ivl"], "ack_limit": Na, "ack_ivl": ack_ivl_ms / 1000.0,
-           "imm_nak": case["imm"], "fs": "mem"}
+           "imm_nak": case["imm"], "fs": "mem", "maxpkt": case.get("maxpkt", 64)}
+    gaps = case.get("gaps", 2 if (case["imm"] and not case["md_missing"]) else 1)
     obs = {}
     with World(cfg) as w:
         D = w.D
@@ -230,15 +238,17 @@ def run_nak(case):
         md = pdugen.raw("MD", tc, {"size": 16, "cks": "crc32", "src_name": w.src_path.as_posix(), "dst_name": w.dst_req_path.as_posix()})
         eof = pdugen.raw("EOF", tc, {"size": 16, "cksum": models.checksum("crc32", data)})
 
-        def fd(i):
-            return pdugen.raw("FD", tc, {"offset": 4 * i, "data": data[4 * i : 4 * i + 4]})
+        def fd(i, n=4):
+            return pdugen.raw("FD", tc, {"offset": 4 * i, "data": data[4 * i : 4 * i + n]})
 
         p = Probe(w, D)
         if not case["md_missing"]:
             p.call(md)
         p.call(fd(0))
-        if case["imm"] and not case["md_missing"]:
-            p.call(fd(2))  # gap -> immediate NAK for [4,8)
+        if gaps >= 2:
+            p.call(fd(2, 2 if gaps >= 3 else 4))  # gap -> (immediate NAK for) [4,8)
+        if gaps >= 3:
+            p.call(fd(3, 2))  # second gap [10,12), tail gap [14,16)
         p.call(eof)
         p.viol.clear()
         # the idle call after the ACK(EOF) was retrieved starts the deferred procedure and issues the first NAK sequence
@@ -247,6 +257,11 @@ def run_nak(case):
         if not naks or fh or fins:
             return [{"clause": "harness-could-not-start-deferred-procedure", "tx": [wire.short(t["d"]) for t in tx], "step": D.h.step.name}], obs, None
         seq_raw = [t["raw"] for t in naks]
+        obs["nak_sequence_pdus_%d" % min(len(naks), 4)] = 1
+        nreq = sum(len(t["d"].get("reqs") or []) for t in naks)
+        per = max(len(t["d"].get("reqs") or []) for t in naks)
+        if len(naks) > 1 and nreq % per == 0:
+            obs["nak_sequence_fills_last_pdu_exactly"] = 1
         t_reset = vclock.now_ms()
         prog = case["progress"]
         done_progress = False
@@ -390,4 +405,4 @@ def exhaustive(tier):
 
 
 REQUIRED = {"eof_scenarios": 20, "fin_scenarios": 20, "nak_scenarios": 20, "limit_faults_checked": 50, "abandons_checked": 50,
-            "resends_checked": 50, "progress_resets_checked": 4, "recovered_runs": 10, "cut_runs": 50, "cut_limit_faults": 10}
+            "resends_checked": 50, "progress_resets_checked": 4, "nak_sequence_fills_last_pdu_exactly": 10, "nak_sequence_pdus_1": 10, "nak_sequence_pdus_2": 10, "recovered_runs": 10, "cut_runs": 50, "cut_limit_faults": 10}
